@@ -307,11 +307,11 @@ class BlackbirdProgram:
                     func = sym.lambdify(par, array[i][j])
 
                     try:
-                        vals = {str(p): kwargs[str(p)] for p in par}
+                        vals = [kwargs[str(p)] for p in par]
                     except KeyError:
                         raise ValueError("Invalid value for free parameter provided")
 
-                    populated[i][j] = func(**vals)
+                    populated[i][j] = func(*vals)
             return populated
 
         # set values for args and kwargs in operations
@@ -325,11 +325,11 @@ class BlackbirdProgram:
                     func = sym.lambdify(par, a)
 
                     try:
-                        vals = {str(p): kwargs[str(p)] for p in par}
+                        vals = [kwargs[str(p)] for p in par]
                     except KeyError:
                         raise ValueError("Invalid value for free parameter provided")
 
-                    op['args'][idx] = func(**vals)
+                    op['args'][idx] = func(*vals)
                 elif isinstance(a, np.ndarray) and a.ndim == 2 and a.dtype == object:
                     op['args'][idx] = populate(a)
 
@@ -339,11 +339,11 @@ class BlackbirdProgram:
                     func = sym.lambdify(par, v)
 
                     try:
-                        vals = {str(p): kwargs[str(p)] for p in par}
+                        vals = [kwargs[str(p)] for p in par]
                     except KeyError:
                         raise ValueError("Invalid value for free parameter provided")
 
-                    op['kwargs'][k] = func(**vals)
+                    op['kwargs'][k] = func(*vals)
                 elif isinstance(v, np.ndarray) and v.ndim == 2 and v.dtype == object:
                     op['kwargs'][k] = populate(v)
 
@@ -355,11 +355,11 @@ class BlackbirdProgram:
                 func = sym.lambdify(par, v)
 
                 try:
-                    vals = {str(p): kwargs[str(p)] for p in par}
+                    vals = [kwargs[str(p)] for p in par]
                 except KeyError:
                     raise ValueError("Invalid value for free parameter provided")
 
-                prog._var[k] = func(**vals)
+                prog._var[k] = func(*vals)
             # or encapsulated in an array
             elif isinstance(v, np.ndarray):
                 # look through the array and, if there are any parameters,
@@ -371,11 +371,11 @@ class BlackbirdProgram:
                         func = sym.lambdify(par, v[i][j])
 
                         try:
-                            vals = {str(p): kwargs[str(p)] for p in par}
+                            vals = [kwargs[str(p)] for p in par]
                         except KeyError:
                             raise ValueError("Invalid value for free parameter provided")
 
-                        populated_array[i][j] = func(**vals)
+                        populated_array[i][j] = func(*vals)
 
                     prog._var[k] = populated_array
 
